@@ -103,12 +103,15 @@ type State struct {
 	Dirty map[string]bool
 	// Flags: ghost events of this path (e.g. the base listener's Accept failed)
 	Flags map[string]bool
+	// LoopWM: allocation watermark at the most recent loop-head cut (objects allocated in the current
+	// iteration lie above it)
+	LoopWM Term
 	// CtxSel: per context term, the condition under which a select on this path took its Done case
 	CtxSel map[string]Term
 }
 
 func (s *State) clone() *State {
-	t := &State{AllocBase: s.AllocBase, AllocN: s.AllocN, StorageOps: s.StorageOps, WM0: s.WM0, Known: s.Known}
+	t := &State{AllocBase: s.AllocBase, AllocN: s.AllocN, StorageOps: s.StorageOps, WM0: s.WM0, Known: s.Known, LoopWM: s.LoopWM}
 	t.Cmds = s.Cmds
 	t.Seq = s.Seq
 	t.Log = make(map[string]*logNode, len(s.Log))
